@@ -476,6 +476,7 @@ def field_tables(repo, enums):
               repo / 'kmip' / 'core' / 'misc.py', repo / 'kmip' / 'core' / 'messages' / 'contents.py']
     guards = []
     unguarded = []
+    tolerant = []
     for f in files:
         tree = ast.parse(f.read_text())
         for c in tree.body:
@@ -527,6 +528,11 @@ def field_tables(repo, enums):
                     else:
                         th, el = self_fields(g.body), self_fields(g.orelse)
                     guards.append((c.name, m.name, cmpk, bound, th, el, raises_vns(g.body)))
+                if m.name == 'read' and found:
+                    calls_oversized = any(isinstance(n, ast.Call) and isinstance(n.func, ast.Attribute) and n.func.attr == 'is_oversized'
+                                          for n in ast.walk(m))
+                    if not calls_oversized:
+                        tolerant.append(c.name)
                 if m.name in ('read', 'write') and found:
                     rest = [n for n in ast.walk(m) if id(n) not in inside and not any(n is g[0].test or id(n) in {id(z) for z in ast.walk(g[0].test)} for g in found)]
                     if m.name == 'read':
@@ -541,7 +547,7 @@ def field_tables(repo, enums):
                                     and x.attr.startswith('_') and x.attr not in names:
                                 names.append(x.attr)
                     unguarded.append((c.name, m.name, names))
-    return guards, unguarded
+    return guards, unguarded, tolerant
 
 
 def attr_tag_table(enums):
@@ -554,7 +560,7 @@ def attr_tag_table(enums):
     return rows
 
 
-def fields_v(enums, guards, unguarded, tagrows):
+def fields_v(enums, guards, unguarded, tagrows, tolerant=()):
     kv = []
     for m in enums.KMIPVersion:
         mm = re.match(r'^KMIP_([0-9]+)_([0-9]+)$', m.name)
@@ -575,7 +581,9 @@ def fields_v(enums, guards, unguarded, tagrows):
             'true' if r else 'false') for c, m, k, b, th, el, r in guards))
     o += ['].', '', 'Definition unguarded_names : list (string * string * list string) := [']
     o.append(';\n'.join('  (%s, %s, %s)' % (coq_str(c), coq_str(m), coq_list(coq_str(x) for x in ns)) for c, m, ns in unguarded))
-    o += ['].', '', '(* enums.is_attribute(tag, v) for v in kmip_versions (same order); only tags that are an attribute under some version *)',
+    o += ['].', '', '(* classes with version blocks whose read() never calls is_oversized: items it does not expect are left unread, not refused *)',
+          'Definition tolerant_readers : list string := %s.' % coq_list(coq_str(x) for x in tolerant)]
+    o += ['', '(* enums.is_attribute(tag, v) for v in kmip_versions (same order); only tags that are an attribute under some version *)',
           'Definition attr_tag_versions : list (string * Z * list bool) := [']
     o.append(';\n'.join('  (%s, %d, %s)' % (coq_str(n), v, coq_list('true' if f else 'false' for f in fl)) for n, v, fl in tagrows))
     o += ['].']
@@ -585,6 +593,6 @@ def fields_v(enums, guards, unguarded, tagrows):
 def generate(repo):
     enums = importlib.import_module('kmip.core.enums')
     t = engine_tables(repo, enums)
-    guards, unguarded = field_tables(repo, enums)
+    guards, unguarded, tolerant = field_tables(repo, enums)
     tagrows = attr_tag_table(enums)
-    return {'Versions.v': versions_v(t), 'VersionFields.v': fields_v(enums, guards, unguarded, tagrows)}
+    return {'Versions.v': versions_v(t), 'VersionFields.v': fields_v(enums, guards, unguarded, tagrows, tolerant)}
